@@ -32,15 +32,22 @@ UB_FORMATION = re.compile(r"^(pointer relation: |pointer arithmetic: )")
 MEMCAP_KB_DEFAULT = 12 * 1024 * 1024
 
 
+def _pdeathsig():
+    # the child lives in its own session (so a timeout can kill its whole group); make sure it cannot outlive the driver
+    try:
+        import ctypes
+        ctypes.CDLL("libc.so.6", use_errno=True).prctl(1, 9)     # PR_SET_PDEATHSIG, SIGKILL
+    except Exception:
+        pass
+
+
 def sh(cmd, timeout=None, memcap_kb=None, cwd=None, env=None):
-    pre = None
-    if memcap_kb:
-        import resource
-        def pre():
+    def pre():
+        if memcap_kb:
+            import resource
             resource.setrlimit(resource.RLIMIT_AS, (memcap_kb * 1024, memcap_kb * 1024))
-            os.setsid()
-    else:
-        pre = os.setsid
+        os.setsid()
+        _pdeathsig()
     t0 = time.time()
     p = subprocess.Popen(cmd, stdout=subprocess.PIPE, stderr=subprocess.PIPE, cwd=cwd, env=env,
                          preexec_fn=pre)
